@@ -23,9 +23,10 @@ use crate::bytemuck;
 #[inline(always)]
 unsafe fn transmute_unchecked<S, D>(s: S) -> D {
     debug_assert_eq!(mem::size_of::<S>(), mem::size_of::<D>());
-    let d = ptr::read(&s as *const _ as *const D);
-    mem::forget(s);
-    d
+    // Give up ownership of `s` BEFORE duplicating it bitwise: moving `s` (into `mem::forget`) after the read would
+    // invalidate the copy for element types that own a `Box`.
+    let s = mem::ManuallyDrop::new(s);
+    ptr::read(&*s as *const S as *const D)
 }
 
 macro_rules! mat_impl_mat {
